@@ -54,6 +54,16 @@ void h_lower(void) { unsigned char c; CaseInsensitiveCompare_asciiLower(c); IORA
  * trims SP/HTAB on both sides and compares ASCII case-insensitively; precedence close > keep-alive > version default. */
 static bool ref_ci_eq(const uint8_t *p, size_t n, const char *lit, size_t len)
 { if (n != len) return 0; for (size_t k = 0; k < 10; k++) if (k < n) { uint8_t c = p[k]; if (c >= 65 && c <= 90) c = (uint8_t)(c + 32); if (c != (uint8_t)lit[k]) return 0; } return 1; }
+static bool ref_want(const uint8_t *IN, size_t IN_N, size_t MAXN, bool HASCONN, bool v10)
+{
+  bool anyClose = 0, anyKa = 0; size_t s = 0;
+  for (size_t i = 0; i <= MAXN; i++) if (i <= IN_N && (i == IN_N || IN[i] == 44)) {      /* list element [s, i) */
+    size_t a = s, b = i; while (a < b && (IN[a] == 32 || IN[a] == 9)) a++; while (b > a && (IN[b - 1] == 32 || IN[b - 1] == 9)) b--;
+    if (ref_ci_eq(IN + a, b - a, "close", 5)) anyClose = 1;
+    if (ref_ci_eq(IN + a, b - a, "keep-alive", 10)) anyKa = 1;
+    s = i + 1; }
+  return HASCONN && anyClose ? 1 : (HASCONN && anyKa ? 0 : v10);
+}
 void h_search(void)
 {
   uint8_t IN[11]; size_t IN_N = nondet_size_t(); uint8_t VERS[4]; _Bool HASCONN = nondet_bool();
@@ -64,14 +74,36 @@ void h_search(void)
   resp.httpVersion.p = (const char *)VERS; resp.httpVersion.n = 3;
   HttpClient c0;
   bool got = HttpClient_responseRequestsClose(&c0, resp);
-  bool anyClose = 0, anyKa = 0; size_t s = 0;
-  for (size_t i = 0; i <= 10; i++) if (i <= IN_N && (i == IN_N || IN[i] == 44)) {      /* list element [s, i) */
-    size_t a = s, b = i; while (a < b && (IN[a] == 32 || IN[a] == 9)) a++; while (b > a && (IN[b - 1] == 32 || IN[b - 1] == 9)) b--;
-    if (ref_ci_eq(IN + a, b - a, "close", 5)) anyClose = 1;
-    if (ref_ci_eq(IN + a, b - a, "keep-alive", 10)) anyKa = 1;
-    s = i + 1; }
   bool v10 = VERS[0] == 49 && VERS[1] == 46 && VERS[2] == 48;
-  bool want = HASCONN && anyClose ? 1 : (HASCONN && anyKa ? 0 : v10);
-  __CPROVER_assert(got == want, "X1 responseRequestsClose equals the reference on the token list");
+  __CPROVER_assert(got == ref_want(IN, IN_N, 10, HASCONN, v10), "X1 responseRequestsClose equals the reference on the token list");
+}
+/* BOUNDED, STRUCTURED stand-in for the precedence rule (needs >= 16 bytes): values of the shape  <keep-alive in any letter case> [SP|HTAB]? , <up to 7
+ * arbitrary bytes>  and the mirror image  <up to 7 arbitrary bytes> , <keep-alive in any letter case>  (19 bytes at most) against the same reference */
+void h_prec(void)
+{
+  static const char KA[10] = {'k','e','e','p','-','a','l','i','v','e'};
+  uint8_t IN[20]; uint8_t VERS[4]; _Bool KAFIRST = nondet_bool(); uint8_t TAIL[7]; size_t TAIL_N = nondet_size_t(); _Bool OWS = nondet_bool();
+  IORA_NONDET_BYTES(TAIL, 7); IORA_NONDET_BYTES(VERS, 4);
+  __CPROVER_assume(TAIL_N <= 7);
+  size_t n = 0;
+  if (KAFIRST) {
+    for (unsigned k = 0; k < 10; k++) { uint8_t ch = (uint8_t)KA[k]; if (ch >= 97 && ch <= 122 && nondet_bool()) ch = (uint8_t)(ch - 32); IN[n++] = ch; }
+    if (OWS) IN[n++] = nondet_bool() ? 32 : 9;
+    IN[n++] = 44;
+    for (unsigned k = 0; k < 7; k++) if (k < TAIL_N) IN[n++] = TAIL[k];
+  } else {
+    for (unsigned k = 0; k < 7; k++) if (k < TAIL_N) IN[n++] = TAIL[k];
+    IN[n++] = 44;
+    if (OWS) IN[n++] = nondet_bool() ? 32 : 9;
+    for (unsigned k = 0; k < 10; k++) { uint8_t ch = (uint8_t)KA[k]; if (ch >= 97 && ch <= 122 && nondet_bool()) ch = (uint8_t)(ch - 32); IN[n++] = ch; }
+  }
+  for (unsigned k = 0; k < 20; k++) if (k >= n) IN[k] = 0;
+  IORA_TRUE = 1;
+  RResponse resp; resp.headers.has_connection = 1; resp.headers.connection.second.p = (const char *)IN; resp.headers.connection.second.n = n;
+  resp.httpVersion.p = (const char *)VERS; resp.httpVersion.n = 3;
+  HttpClient c0;
+  bool got = HttpClient_responseRequestsClose(&c0, resp);
+  bool v10 = VERS[0] == 49 && VERS[1] == 46 && VERS[2] == 48;
+  __CPROVER_assert(got == ref_want(IN, n, 19, 1, v10), "X2 precedence close > keep-alive > version default on two-element lists containing keep-alive");
 }
 #endif
